@@ -34,6 +34,13 @@ def _w(a):
     return xr.DataArray(np.linspace(0.25, 1.0, n), dims=["lev"], coords=c)
 
 
+def _lead(a):
+    """positional indexing of the first dimension: only applicable while that is not a grid dimension"""
+    if a.dims[0] in GRID_DIMS:
+        raise TypeError("not applicable: first dimension is a grid dimension")
+    return a
+
+
 def _gdim(a):
     for d in a.dims:
         if d in GRID_DIMS:
@@ -94,8 +101,8 @@ OPS = [
     ("sel_time", lambda a: a.sel(time=a["time"].values[1])),
     ("sel_time_list", lambda a: a.sel(time=list(a["time"].values[:2]))),
     ("sel_time_slice", lambda a: a.sel(time=slice(a["time"].values[0], a["time"].values[1]))),
-    ("getitem_int", lambda a: a[0]),
-    ("getitem_slice", lambda a: a[1:]),
+    ("getitem_int", lambda a: _lead(a)[0]),
+    ("getitem_slice", lambda a: _lead(a)[1:]),
     ("loc", lambda a: a.loc[{"time": a["time"].values[0]}]),
     ("head", lambda a: a.head(time=1)),
     ("tail", lambda a: a.tail(time=1)),
@@ -158,10 +165,9 @@ OPS = [
     ("concat_new_dim", lambda a: xr.concat([a, a + 1], dim="member")),
     ("concat_pieces", lambda a: xr.concat([a.isel(time=[0]), a.isel(time=[1])], dim="time")),
     # ---- copies
-    ("copy", lambda a: a.copy()),
     ("copy_shallow", lambda a: a.copy(deep=False)),
     ("copy_copy", lambda a: copy.copy(a)),
-    ("copy_data", lambda a: a.copy(data=np.zeros(a.shape))),
+    ("copy_shallow_data", lambda a: a.copy(deep=False, data=np.zeros(a.shape))),
     ("compute", lambda a: a.compute()),
     ("pipe", lambda a: a.pipe(lambda x: x * 2)),
     ("real", lambda a: a.real),
@@ -169,7 +175,9 @@ OPS = [
 
 # operations whose result is a deep copy: equal but independent grid
 DEEP = [
+    ("copy_default", lambda a: a.copy()),                      # xarray: deep=True is the default
     ("copy_deep", lambda a: a.copy(deep=True)),
+    ("copy_deep_data", lambda a: a.copy(deep=True, data=np.zeros(a.shape))),
     ("deepcopy", lambda a: copy.deepcopy(a)),
 ]
 
@@ -193,9 +201,36 @@ FUNCS = [
 
 
 def _iadd(a):
-    b = a.copy()
+    b = a + 0
     b += 1
     return b
+
+
+# operations that reach the same xarray machinery fail (or work) together: one failure key per family
+FAMILY = {}
+for _fam, _ops in {
+    "numpy_ufuncs": ["np_sin", "np_exp", "np_sqrt_abs", "np_maximum", "np_add", "np_isnan", "np_negative", "np_clip", "np_mean_axis0"],
+    "where_clip_fillna": ["where", "where_other", "clip", "fillna", "where_drop_non_grid"],
+    "astype": ["astype_float32", "astype_int"],
+    "isnull_notnull_isin": ["isnull", "notnull", "isin"],
+    "dot": ["dot_lev", "xr_dot"],
+    "rolling_coarsen": ["rolling_mean_time", "rolling_sum_center", "rolling_construct", "coarsen_time"],
+    "xr_like_constructors": ["xr_zeros_like", "xr_ones_like", "xr_full_like"],
+    "xr_where_apply_ufunc": ["xr_where", "xr_apply_ufunc"],
+    "broadcast": ["broadcast_like", "xr_broadcast"],
+    "deep_copy": ["copy_default", "copy_deep", "copy_deep_data", "deepcopy"],
+    "isel_positional_dict": ["isel_positional_dict", "isel_positional_dict_two"],
+    "own_topological_aggregation": ["own_topological_mean_face", "own_topological_mean_edge", "own_topological_max_face"],
+    "own_remap": ["own_remap_nn_faces", "own_remap_nn_nodes"],
+    "xarray_indexing_of_grid_dim": ["getitem_slice_grid_dim", "getitem_int_list_grid_dim", "isel_indexers_kw_grid_dim", "head_grid_dim",
+                                    "sel_grid_dim", "loc_grid_dim", "drop_isel_grid_dim"],
+}.items():
+    for _o in _ops:
+        FAMILY[_o] = _fam
+
+
+def _fam(op_label):
+    return "|".join(FAMILY.get(o, o) for o in op_label.split("|"))
 
 
 # indexing that touches a grid dimension through the xarray interface: the result must be consistent with its grid
@@ -237,8 +272,15 @@ class _Ck:
     def __init__(self):
         self.failures, self.cases, self.distinct = [], 0, set()
         self.keys = set()
+        self.ops_failed = {}
 
     def fail(self, key, what, violated, inputs, observed=None, expected=None):
+        # key = clause:op_label[:detail]  ->  clause:family_label[:detail]
+        parts = key.split(":")
+        if len(parts) >= 2:
+            self.ops_failed.setdefault((parts[0], _fam(parts[1])) + tuple(parts[2:]), set()).add(parts[1])
+            parts[1] = _fam(parts[1])
+            key = ":".join(parts)
         self.keys.add(key)
 
         def short(v):
@@ -279,6 +321,8 @@ def _values_equal(r, p):
         return "dtype", str(rv.dtype), str(pv.dtype)
     if rv.dtype.kind in "fc":
         same = np.allclose(rv, pv, rtol=1e-12, atol=1e-12, equal_nan=True)
+    elif rv.dtype.kind == "O":
+        same = all((x == y) or (x != x and y != y) for x, y in zip(rv.ravel().tolist(), pv.ravel().tolist()))
     else:
         same = np.array_equal(rv, pv)
     if not same:
@@ -286,7 +330,14 @@ def _values_equal(r, p):
     if set(r.coords) != set(p.coords):
         return "coords", sorted(map(str, r.coords)), sorted(map(str, p.coords))
     for c in p.coords:
-        if np.asarray(r[c].values).shape != np.asarray(p[c].values).shape or not np.array_equal(np.asarray(r[c].values), np.asarray(p[c].values)):
+        rc, pc = np.asarray(r[c].values), np.asarray(p[c].values)
+        if rc.dtype.kind == "O" or pc.dtype.kind == "O":
+            eq = rc.shape == pc.shape and [repr(x) for x in rc.ravel().tolist()] == [repr(x) for x in pc.ravel().tolist()]
+        elif rc.dtype.kind in "fc" and pc.dtype.kind in "fc":
+            eq = rc.shape == pc.shape and np.array_equal(rc, pc, equal_nan=True)
+        else:
+            eq = rc.shape == pc.shape and np.array_equal(rc, pc)
+        if not eq:
             return "coord_values", str(c), None
     if r.name != p.name:
         return "name", r.name, p.name
@@ -448,11 +499,11 @@ def xarray_ops(tier, seed):
                 if oname == "own_get_dual" and not m["closed"]:
                     continue
                 # own(a), own(xr(a)), xr(own(a))
-                pre = [("", lambda x: x)] + [xr_ops[i] for i in rng2.sample(range(len(xr_ops)), 6 if tier == "quick" else 25)]
+                pre = [("", lambda x: x)] + [xr_ops[i] for i in rng2.sample(range(len(xr_ops)), min(len(xr_ops), 6 if tier == "quick" else 25))]
                 for pname, pf in pre:
                     okx, x = _apply(pf, a)
-                    if not okx or not isinstance(x, ux.UxDataArray) or not any(d in GRID_DIMS for d in x.dims):
-                        continue
+                    if not okx or not isinstance(x, ux.UxDataArray) or not x.dims or x.dims[-1] not in GRID_DIMS:
+                        continue                    # grid dimension not last: fixed scenario below
                     oko, r = _apply(of, x)
                     if not oko:
                         continue                    # the operator rejects this input: not C10's subject
@@ -478,7 +529,7 @@ def xarray_ops(tier, seed):
                         continue
                     # xarray operations after the own operator
                     pr = _plain(r)
-                    post = xr_ops if tier == "thorough" else [xr_ops[i] for i in rng2.sample(range(len(xr_ops)), 25)]
+                    post = xr_ops if tier == "thorough" else [xr_ops[i] for i in rng2.sample(range(len(xr_ops)), min(len(xr_ops), 25))]
                     for qname, qf in post:
                         okp, p2 = _apply(qf, pr)
                         if not okp:
@@ -492,6 +543,28 @@ def xarray_ops(tier, seed):
                                     "interleaved with uxarray's own operations", inputs2)
                             continue
                         _check(ck, f"{oname}|{qname}", r, r2, p2, inputs2, mode="same")
+
+    # ---------------- own operators on arrays whose grid dimension is not the last one (other dimension of the same length)
+    for m in meshes[:2]:
+        g = grid_of(m)
+        dgrid = grid_of(dest)
+        for dim, n in _counts(g).items():
+            vals = np.arange(float(n * n)).reshape(n, n)
+            a = ux.UxDataArray(vals, dims=["k", dim], uxgrid=g, name="v").transpose(dim, "k")      # reachable: transposition
+            for oname, of, gmode in _own_ops(dgrid):
+                if oname in ("own_integrate",) or (oname == "own_get_dual" and not m["closed"]):
+                    continue                        # integrate: C06
+                oko, r = _apply(of, a)
+                if not oko or not isinstance(r, ux.UxDataArray) or r.uxgrid is None:
+                    continue
+                ck.cases += 1
+                ck.distinct.add((m["name"], dim, oname, "grid_dim_first"))
+                bad = _dim_lengths_ok(r)
+                if bad:
+                    ck.fail(f"grid_dim_length:{oname}:grid_dim_not_last", f"{oname[4:]} of an array with dims ({dim}, k) returns dims {list(r.dims)} where "
+                            + ", ".join(f"{d} has length {v[0]} but the grid has {v[1]}" for d, v in bad.items()),
+                            "a node, edge or face dimension's length equals the corresponding element count of the attached grid",
+                            {"mesh": m["name"], "array": f"UxDataArray(dims=[k, {dim}], shape=[{n}, {n}]).transpose({dim}, k)", "op": oname[4:]}, list(r.shape))
 
     # ---------------- deep copy independence seen through the public interface
     g = grid_of(mg.quad_patch(2, 1))
@@ -518,6 +591,9 @@ def xarray_ops(tier, seed):
             ops = rest.split(":")[0].split("|")
             if any(f"{clause}:{o}" in singles or any(s.startswith(f"{clause}:{o}:") for s in singles) for o in ops):
                 continue
+        allops = ck.ops_failed.get(tuple(k.split(":")))
+        if allops and len(allops) > 1:
+            f = dict(f, inputs=dict(f["inputs"], all_failing_ops_of_family=sorted(allops)))
         fails.append(f)
     bound = (f"{len(meshes)} meshes x face/node/edge-centred arrays (time, lev, n_*) of float / int / bool; {len(OPS)} xarray methods + "
              f"{len(DEEP)} deep copies + {len(FUNCS)} function-style entry points + {len(GRID_INDEXING)} ways of indexing a grid dimension through "
